@@ -29,6 +29,10 @@ func PathValues(p protopath.Path, m proto.Message) (protopath.Values, error) {
 			v.Values = append(v.Values, cursor)
 		case protopath.FieldAccessStep:
 			if f, ok := desc.(protoreflect.FieldDescriptor); ok {
+				// The cursor holds a list or a map, not a message: a field access would panic.
+				if f.IsList() || f.IsMap() {
+					return protopath.Values{}, fmt.Errorf("%d: cursor at repeated field %v must be indexed before a field access", i, f.Name())
+				}
 				desc = f.Message()
 			}
 			md, ok := desc.(protoreflect.MessageDescriptor)
